@@ -158,6 +158,29 @@ let () = iter_lines (fun line ->
         Printf.sprintf "%d %d" (int_of_z v) (int_of_z n)
       | _ -> "ERR" in
     Printf.printf "I %s S %s\n" i s
+  | [ "pkd"; w; alphg; sg; sr; sb; sa ] ->
+    (* I: packed table model (buildPackedTable + readPackedSymbols) on the root-8 table models;
+       S: the four canonical code trees walked one after the other (Vp8lPacked.seq_read) *)
+    let lens alphabet sp =
+      let a = Array.make alphabet 0 in
+      Stdlib.List.iter (fun it -> match String.split_on_char ':' it with
+        | [s; l] -> a.(int_of_string s) <- int_of_string l | _ -> failwith "pkd lens")
+        (String.split_on_char ',' sp);
+      Stdlib.List.map z_of_int (Array.to_list a) in
+    let lg = lens (int_of_string alphg) sg and lr = lens 256 sr and lb = lens 256 sb and la = lens 256 sa in
+    let wz = z_of_int (int_of_string w) in
+    let show (r, n) = match r with
+      | Vp8lPacked.PLit v -> Printf.sprintf "L %s %d" (string_of_z v) (int_of_z n)
+      | Vp8lPacked.PSym v -> Printf.sprintf "S %s %d" (string_of_z v) (int_of_z n) in
+    let rt = z_of_int 8 in
+    let i = match Vp8lLut.lut_build rt lg, Vp8lLut.lut_build rt lr, Vp8lLut.lut_build rt lb, Vp8lLut.lut_build rt la with
+      | Res.Ok g, Res.Ok r, Res.Ok b, Res.Ok a -> show (Vp8lPacked.packed_read (Vp8lPacked.packed_build g r b a) wz)
+      | _ -> "ERR" in
+    let s = match Vp8lPrefix.tree_of_lens lg, Vp8lPrefix.tree_of_lens lr, Vp8lPrefix.tree_of_lens lb, Vp8lPrefix.tree_of_lens la with
+      | Res.Ok tg, Res.Ok tr, Res.Ok tb, Res.Ok ta ->
+        (match Vp8lPacked.seq_read tg tr tb ta wz with Some x -> show x | None -> "ERR")
+      | _ -> "ERR" in
+    Printf.printf "I %s S %s\n" i s
   | "brd" :: hex :: ops ->
     (* the 64-bit window bit reader model on a script of operations (see Vp8lBitReader.br_run) *)
     let data = if hex = "-" then [] else zbytes_of_hex hex in
